@@ -144,12 +144,12 @@ func genName(r *core.Rng, i int) string {
 	for k := range b {
 		b[k] = alpha[r.Intn(len(alpha))]
 	}
-	// unique and never "." / ".."
-	s := fmt.Sprintf("%d", i)
-	if len(s) >= l {
-		return "n" + s
+	// unique: the text after the last '_' is the index; never "." / ".."
+	sfx := fmt.Sprintf("_%d", i)
+	if len(sfx) >= l {
+		return sfx[1:] // digits only
 	}
-	copy(b[l-len(s):], s)
+	copy(b[l-len(sfx):], sfx)
 	if b[0] == '.' || b[0] == ' ' {
 		b[0] = 'x'
 	}
